@@ -38,6 +38,35 @@ def newWith (active readSizeCfg recordSize : Nat) (indeterminate : Bool) : Excep
     else if totalCapacity % readSize ≠ 0 then .error "assertion `left == right` failed"
     else .ok ⟨totalCapacity, recordSize, readSize⟩
 
+/-! ## `GatewayConfig`: the per-channel window override (`helpers/gateway/mod.rs`)
+
+`Gateway::get_mpc_sender(channel, total_records, active_work)` sizes the send buffer with
+`SendChannelConfig::new_with(self.config.set_active_work(active_work), total_records, M::Size)`. -/
+
+/-- `GatewayConfig` as far as channels use it. -/
+structure GwCfg where
+  active : Nat
+  readSize : Nat
+deriving Repr, BEq, DecidableEq
+
+/-- `GatewayConfig::set_active_work(&self, active_work)`: `Self { active: active_work, ..*self }` —
+the requested window replaces the configured one, nothing else changes, *no cap*. -/
+def setActiveWork (cfg : GwCfg) (activeWork : Nat) : GwCfg := { cfg with active := activeWork }
+
+/-- `usize::next_power_of_two`: the smallest power of two `≥ n`. -/
+def nextPow2 (n : Nat) : Nat := if n ≤ 1 then 1 else 2 ^ bitLen (n - 1)
+
+/-- `GatewayConfig::set_active_work_from_query_config`:
+`active = max(2, min(Self::default().active, query_size)).next_power_of_two()`. -/
+def setActiveWorkFromQuery (defaultActive : Nat) (cfg : GwCfg) (querySize : Nat) : GwCfg :=
+  { cfg with active := nextPow2 (max 2 (min defaultActive querySize)) }
+
+/-- The send-channel configuration of an MPC channel opened with the window `activeWork`
+(`get_mpc_sender`). -/
+def mpcSendCfg (cfg : GwCfg) (activeWork recordSize : Nat) (indeterminate : Bool) : Except String SendCfg :=
+  let c := setActiveWork cfg activeWork
+  newWith c.active c.readSize recordSize indeterminate
+
 /-! ## `StreamCollection` -/
 
 /-- `(QueryId, I, Gate)` as three numbers. -/
